@@ -362,7 +362,48 @@ def tag(case, f):
     return None
 
 
+# ---------------------------------------------------------------------------------------------
+# long files: row counts around powers of two (writers and readers that work in batches or buffers change path there)
+
+def enum_long(tier):
+    rows = (1022, 1023, 1024, 1025, 2049) if tier == 'quick' else (255, 256, 257, 511, 512, 513, 1022, 1023, 1024, 1025, 2047, 2048, 2049, 4097, 8193)
+    for n in rows:
+        for header in (True, False):
+            for index in (True, False):
+                for delim in (',', '\t', '|'):
+                    yield {'n': n, 'header': header, 'index': index, 'delim': delim}
+
+
+def check_long(case):
+    n = case['n']
+    f = sf.Frame.from_items((('a', np.arange(n)), ('b', np.arange(n) * 0.5), ('c', np.array(['s%d' % (i % 97) for i in range(n)])), ('d', np.arange(n) % 3 == 0)),
+                            index=np.arange(n) + 10 ** 6)
+    buf = io.StringIO()
+    kw = dict(include_index=case['index'], include_columns=case['header'])
+    w = lib(lambda: f.to_delimited(buf, delimiter=case['delim'], **kw))
+    if isinstance(w, Raised):
+        raise Failure('raised:%s' % w.cls, 'to_delimited of %d rows raised %r' % (n, w.exc), w.where)
+    text = buf.getvalue()
+    lines = text.split('\n')
+    want_lines = n + (1 if case['header'] else 0)
+    if len(lines) - 1 != want_lines:
+        raise Failure('lines', 'to_delimited(%r) of %d rows wrote %d lines, expected %d' % (kw, n, len(lines) - 1, want_lines))
+    r = lib(lambda: sf.Frame.from_delimited(io.StringIO(text), delimiter=case['delim'], index_depth=1 if case['index'] else 0, columns_depth=1 if case['header'] else 0))
+    if isinstance(r, Raised):
+        raise Failure('raised:%s' % r.cls, 'reading %d rows back (%r) raised %r' % (n, kw, r.exc), r.where)
+    if r.shape != f.shape:
+        raise Failure('shape', '%d rows (%r): read back with shape %s' % (n, kw, r.shape))
+    for j in range(4):
+        if arr_list(r.iloc[:, j].values) != arr_list(f.iloc[:, j].values):
+            raise Failure('value', '%d rows (%r): column %d differs after the round trip' % (n, kw, j))
+    if case['index'] and arr_list(r.index.values) != arr_list(f.index.values):
+        raise Failure('labels', '%d rows (%r): index differs after the round trip' % (n, kw))
+    return {'nt': True, 'cls': ['long:%d' % n]}
+
+
 SUBS = [
+    Sub('long_files', None, check_long, quick=0, thorough=0, enum=enum_long,
+        rule='enumerated row counts around 2**k (1022..2049 quick, 255..8193 thorough) x header x index x delimiter: line count and round trip'),
     Sub('delimited', frame_cases(), check_delimited, quick=4800, thorough=48000, tag=tag,
         rule='to_delimited/to_csv/to_tsv -> from_* round trip under the unambiguous-text rule'),
     Sub('structural', struct_cases(), check_struct, quick=4000, thorough=24000, tag=tag,
